@@ -19,7 +19,7 @@ RULE = (
     "jax.tree_util.tree_unflatten(tree_flatten), capture primitive bind + eval_jaxpr (integer wires only, as in the library's own validity check)}: "
     "type(f(x)) is type(x), f(x) is not x, f(x).wires == x.wires, qp.equal(x, f(x)) and qp.equal(f(x), x). Deep copy: no numpy leaf of the copy shares memory with the "
     "original and overwriting every array of the copy in place leaves the original equal to a fresh rebuild. Rebinding: y = the same spec with all "
-    "numeric parameters shifted (probabilities halved, matrix seeds changed), built independently; z = bind_new_parameters(x, y.data) must have "
+    "numeric parameters shifted (probabilities halved, matrix seeds changed; the generator of an Evolution and the unitary of a GQSP are kept, their parameters are not data), built independently; z = bind_new_parameters(x, y.data) must have "
     "type(x), data equal to y.data exactly, qp.equal(z, y) (so wires / hyperparameters are unchanged) and x must still equal a fresh rebuild. "
     "Non-trivial: x has parameters, hyperparameters or is nested."
 )
@@ -130,7 +130,10 @@ def _shift(s, cls=None):
         elif k == "kw" and isinstance(v, dict):
             kw = {}
             for kk, vv in v.items():
-                if isinstance(vv, dict) and "op" in vv:
+                if name == "GQSP" and kk == "unitary":
+                    # GQSP.data is (angles,): the unitary is not a dynamic argument, so rebinding keeps it (like the generator of an Evolution)
+                    kw[kk] = vv
+                elif isinstance(vv, dict) and "op" in vv:
                     kw[kk] = _shift(vv)
                 elif isinstance(vv, list) and vv and isinstance(vv[0], dict) and "op" in vv[0]:
                     kw[kk] = [_shift(o) for o in vv]
@@ -181,15 +184,13 @@ def _root(a, how, default):
     """Bucket name from the input class (so that one root cause is one bucket whatever wrapper surrounds it)."""
     r = repr(a)
     if how == "bind":
-        for n in ("ControlledQubitUnitary", "BlockEncode", "TemporaryAND", "GQSP"):
+        # (ControlledQubitUnitary, GQSP, ChangeOpBasis and Evolution used to be classes of their own: repaired in the repository)
+        for n in ("BlockEncode", "TemporaryAND"):
             if f"'{n}'" in r:
                 return "bind:contains-" + n
-        if "'cob'" in r:
-            return "bind:contains-ChangeOpBasis"
-        if "'evolution'" in r:
-            return "bind:contains-Evolution"
         for n, (_, _, t) in zoo.ZOO.items():
-            if "opargs" in t and f"'{n}'" in r:
+            # GQSP is excluded: its operator argument is not part of data, so there is no hyperparameter that could go stale
+            if "opargs" in t and n != "GQSP" and f"'{n}'" in r:
                 return "bind:operator-valued-hyperparameter:" + n
     if how in ("pytree", "jax-pytree", "pickle", "copy", "deepcopy") and "'StronglyEntanglingLayers'" in r:
         return how + ":contains-StronglyEntanglingLayers"
